@@ -7,6 +7,7 @@ import (
 	"reflect"
 	"sort"
 	"strings"
+	"sync"
 	"time"
 
 	clover "github.com/ostafen/clover/v2"
@@ -15,10 +16,13 @@ import (
 )
 
 type failer struct {
+	mu    sync.Mutex
 	fails []string
 }
 
 func (f *failer) failf(format string, a ...interface{}) {
+	f.mu.Lock()
+	defer f.mu.Unlock()
 	if len(f.fails) < 20 {
 		f.fails = append(f.fails, clip(fmt.Sprintf(format, a...), 1500))
 	}
